@@ -21,6 +21,7 @@ import (
 	"github.com/hyperjumptech/grule-rule-engine/ast/unique"
 	"math"
 	"reflect"
+	"strconv"
 	"strings"
 
 	"github.com/hyperjumptech/grule-rule-engine/pkg"
@@ -130,7 +131,9 @@ func (e *Constant) GetSnapshot() string {
 	case reflect.Uint, reflect.Uint8, reflect.Uint16, reflect.Uint32, reflect.Uint64:
 		buff.WriteString(fmt.Sprintf("%d", e.Value.Uint()))
 	case reflect.Float32, reflect.Float64:
-		buff.WriteString(fmt.Sprintf("%f", e.Value.Float()))
+		// shortest representation that identifies the value: %f keeps six decimals only, so
+		// 0.0000001 and 0.0000002 (or 1.0000001 and 1.0000002) had the same snapshot.
+		buff.WriteString(strconv.FormatFloat(e.Value.Float(), 'g', -1, 64))
 	case reflect.Bool:
 		buff.WriteString(fmt.Sprintf("%v", e.Value.Bool()))
 	}
